@@ -21,6 +21,10 @@ CHECKS = {
          "Generated tables (1-5 partitions) and select lists mixing 0-3 grouping expressions with subsets of count/sum/min/max/avg over int and float columns and an optional WHERE, compared as a multiset of group rows with a reference group-by (ints exact, float sums within the reordering tolerance); row and column views must agree. The unchanged engine fails large parts of this space (multi-key grouping, NULL keys across partitions, streaming): those classes are listed as known findings, excluded by construction and counted, so the judged lane is mainly 0/1-key grouping.",
          "DESIGN.md 4 C04", "Reference group-by in eval.rs; AVG(int) is the integer quotient; COUNT(col) = NULL accepted where 0 is expected while KF-count-all-null is open.",
          "property-based testing (proptest) with a reference group-by (differential oracle, multiset comparison)"),
+ "C06": ("exploration",
+         "Generated int columns at the edges of u8/u16/u32/i64 and their offset encodings, expression trees of depth <= 3 with + - * / % per row and under SUM (ungrouped and grouped, 1-5 partitions), judged against i128 arithmetic: exact where every step is representable, Overflow where the exact value leaves i64 or a divisor is 0, either where only an intermediate overflows.",
+         "DESIGN.md 4 C06", "i128 reference; queries in which a value equals 2^63-1 (the reserved NULL marker, outside the property's domain) are not judged; SUM may fail whenever the sum of absolute values exceeds i64.",
+         "property-based testing (proptest) with an exact-arithmetic reference (i128)"),
 }
 
 NOT_YET = {
